@@ -28,6 +28,14 @@ class _Return(Exception):
         self.v = v
 
 
+class _Break(Exception):
+    pass
+
+
+class _Continue(Exception):
+    pass
+
+
 class Obj:
     """An instance of a repository class: class model + field dict."""
 
@@ -77,7 +85,10 @@ class ClassModel:
         return None
 
     def isa(self, name: str) -> bool:
-        return self.name == name or any(b.isa(name) for b in self.bases)
+        if self.name == name or any(b.isa(name) for b in self.bases):
+            return True
+        # the base classes the repository's class statement itself names (`IPersistentVector[T]`)
+        return any(P.un(b).split("[")[0].split(".")[-1] == name for b in self.node.bases)
 
 
 class Closure:
@@ -264,9 +275,31 @@ class Interp:
                 if self.fuel < 0:
                     raise Unsupported("budget")
                 self._assign(s.target, v, env)
-                self.exec_block(s.body, env)
+                try:
+                    self.exec_block(s.body, env)
+                except _Continue:
+                    continue
+                except _Break:
+                    return
             self.exec_block(s.orelse, env)
             return
+        if isinstance(s, ast.While):
+            while self.truth(self.eval(s.test, env)):
+                self.fuel -= 1
+                if self.fuel < 0:
+                    raise Unsupported("budget")
+                try:
+                    self.exec_block(s.body, env)
+                except _Continue:
+                    continue
+                except _Break:
+                    return
+            self.exec_block(s.orelse, env)
+            return
+        if isinstance(s, ast.Break):
+            raise _Break()
+        if isinstance(s, ast.Continue):
+            raise _Continue()
         if isinstance(s, P.FUNC):
             env[s.name] = Closure(s, env, self)
             return
@@ -381,6 +414,10 @@ class Interp:
                 m = base.cls.find(e.attr)
                 if m is not None:
                     return lambda *a, _m=m, _b=base: self.call_function(_m, [_b, *a], {})
+            if isinstance(base, list) and e.attr in ("append", "extend", "pop"):
+                if e.attr == "extend":
+                    return lambda xs, _b=base: _b.extend(self.iterate(xs))
+                return getattr(base, e.attr)
             raise Unsupported(f"attribute {P.un(e)}")
         if isinstance(e, (ast.Tuple, ast.List)):
             out = []
@@ -389,6 +426,8 @@ class Interp:
                     out.extend(self.iterate(self.eval(x.value, env)))
                 else:
                     out.append(self.eval(x, env))
+            if isinstance(e, ast.List) and getattr(self, "mutable_lists", False):
+                return out
             return tuple(out)
         if isinstance(e, ast.BoolOp):
             v = None
@@ -497,6 +536,10 @@ class Interp:
                 return {"int": int, "float": float, "abs": abs, "round": round}[fname](v)
             except (TypeError, ValueError) as ex:
                 raise PyRaise(type(ex).__name__, str(ex))
+        if fname == "list" and getattr(self, "mutable_lists", False) and len(e.args) == 1:
+            return list(self.iterate(self.eval(e.args[0], env)))
+        if fname == "enumerate" and len(e.args) == 1:
+            return tuple(enumerate(self.iterate(self.eval(e.args[0], env))))
         if fname in ("tuple", "list", "iter"):
             return tuple(self.iterate(self.eval(e.args[0], env)))
         if fname == "type":
